@@ -44,6 +44,13 @@ def record_and_validate(vh, job):
             raise Broken("vh record-txn failed (%s): %s" % (job, e[-3000:]))
         res = validate_trace(d)
         res["job"] = job
+        res["scenarios"] = {}
+        for line in e.splitlines():
+            if line.startswith("STATS "):
+                try:
+                    res["scenarios"] = json.loads(line[6:]) or {}
+                except ValueError:
+                    pass
         trace = read_trace(sc.path("trace.ndjson"))
         res["n_events"] = len(trace)
         res["txns"] = sum(1 for x in trace if x["ev"] == "txn")
